@@ -12,7 +12,9 @@
 (*                          configuration file, in order, successful ones  *)
 (*   FsEnd                  the call returned                              *)
 (* AtomicOnDisk is evaluated on the state after EVERY call: every system   *)
-(* call boundary is an instant at which the process could stop.            *)
+(* call boundary is an instant at which the process could stop.  A write   *)
+(* on the inode the name refers to is additionally judged cut short at     *)
+(* three places (WriteTornOK): write(2) is not atomic against a crash.     *)
 (***************************************************************************)
 EXTENDS FsWrite, TraceLib
 
@@ -39,9 +41,13 @@ Running == w.pc = "run"
 TraceOpen == /\ Step("Open") /\ Running
              /\ LET e == Trace[l] IN SysOpen(e.name, e.fd, e.creat, e.excl, e.trunc, e.app)
 TraceWrite == /\ Step("Write") /\ Running
-              /\ LET e == Trace[l] IN SysWrite(e.fd, e.data)
+              /\ LET e == Trace[l] IN
+                   /\ SysWrite(e.fd, e.data)
+                   /\ WriteTornOK(e.fd, IF fdt[e.fd].app THEN Len(data[fdt[e.fd].ino]) ELSE fdt[e.fd].pos, e.data)
 TracePwrite == /\ Step("Pwrite") /\ Running
-               /\ LET e == Trace[l] IN SysPwrite(e.fd, e.data, e.off)
+               /\ LET e == Trace[l] IN
+                    /\ SysPwrite(e.fd, e.data, e.off)
+                    /\ WriteTornOK(e.fd, e.off, e.data)
 TraceLseek == /\ Step("Lseek") /\ Running
               /\ LET e == Trace[l] IN SysLseek(e.fd, e.off)
 TraceFtruncate == /\ Step("Ftruncate") /\ Running
